@@ -673,6 +673,18 @@ def rule_C1(text):
     return text, n
 
 
+def rule_D10(text):
+    """for X in (A..B).rev() {  ->  let mut verif_k = B; while verif_k > A { verif_k -= 1; let X = verif_k;
+    (Rev over a Range yields B-1, B-2, ..., A; the upper bound is evaluated once, before the loop, as in the original)"""
+    n = 0
+
+    def rep(m):
+        nonlocal n
+        n += 1
+        return 'let verif_lo = %s; let mut verif_k = %s;\n while verif_k > verif_lo {\n verif_k -= 1; let %s = verif_k;' % (m.group(2).strip(), m.group(3).strip(), m.group(1))
+    return re.sub(r'for (\w+) in \(([^()]*(?:\([^()]*\)[^()]*)*?)\.\.([^()]*(?:\([^()]*\)[^()]*)*?)\)\.rev\(\) \{', rep, text), n
+
+
 def rule_D9(text):
     """(LO..HI).map(|X| BODY).collect()   ->   { let mut verif_out = Vec::new(); let verif_hi = HI; let mut verif_k = LO;
                                                  while verif_k < verif_hi { let X = verif_k; let verif_item = BODY; verif_out.push(verif_item); verif_k += 1; } verif_out }
